@@ -37,6 +37,7 @@ RULE += (' In a third of the sampled runs 61..600 simulated seconds pass on the 
 RULE += (' Half of the sampled runs use slow consumers which pause their producer from inside write() and resume when the scheduler says so.')
 RULE += (' 1/24 of the sampled runs send 1000..2500 tiny records to a receiver that is busy meanwhile (reads are at most 64 KiB).')
 RULE += RULE_EAGER
+RULE += (" Half of the long runs have a reader that falls 130..250 records behind, takes the first 1..3 with receive_record() and hands the rest of the stream to a consumer.")
 LEVEL_TEXT = ("Fault enumeration over manipulation points of a fixed stream "
               "plus seeded exploration of streams/chunkings/reader modes. "
               "Oracle: what the reader obtains is always a prefix of the "
@@ -315,6 +316,17 @@ def run_one(seed, tape, opts):
                                     "rd1"),
                    "r2s": tape.pick(("read", "consumer", "consumer_exp"),
                                     "rd2")}
+        for d_ in ("s2r", "r2s"):
+            # a reader that falls far behind (130..250 records waiting), takes
+            # the first few with receive_record() - a header - and hands the
+            # rest of the stream to a consumer
+            if len(recs[d_]) >= 60 and d_ not in burst_dir and \
+                    tape.choose(2, "rtc") == 0:
+                recs[d_] = recs[d_] + [tape.blob(tape.choose(40, "rtc_sz"),
+                                                 500 + i)
+                                       for i in range(70 + tape.choose(
+                                           70, "rtc_n"))]
+                readers[d_] = "read_then_consumer"
     if eager:
         if tape.choose(2, "eager_only") == 0 and "s2r" not in burst_dir:
             # nothing follows: what is stranded behind "go" stays stranded
@@ -449,6 +461,12 @@ def run_one(seed, tape, opts):
 
     lazy = {d: (not opts.get("fixed")) and tape.choose(4, "lazy") == 0
             for d in ("s2r", "r2s")}
+    rtc_reads = {}
+    for d in ("s2r", "r2s"):
+        if st[d]["mode"] == "read_then_consumer":
+            lazy[d] = True
+            rtc_reads[d] = 1 + tape.choose(3, "rtc_k")
+            sim.note("probe.read_then_consumer")
     orderly = [(not opts.get("fixed")) and tape.choose(3, "orderly") == 0]
 
     def all_sent():
@@ -520,8 +538,8 @@ def run_one(seed, tape, opts):
             evs.append(("close", close_now))
         for d in ("s2r", "r2s"):
             s = st[d]
-            if lazy[d] and s["mode"] == "read" and rx_end[d].alive and \
-                    not all_sent():
+            if lazy[d] and s["mode"] in ("read", "read_then_consumer") and \
+                    rx_end[d].alive and not all_sent():
                 # a late reader: first read only when the peer is done
                 if s["sent"] < len(recs[d]) and \
                         conns[d][0].transport.connected and \
@@ -532,6 +550,13 @@ def run_one(seed, tape, opts):
                     and not conns[d][0].transport.disconnecting:
                 evs.append(("send:" + d, lambda d=d: send_next(d)))
             pending = sum(1 for x in s["reads"] if x["state"] == "pending")
+            if s["mode"] == "read_then_consumer":
+                if len(s["reads"]) < rtc_reads[d]:
+                    if pending == 0:
+                        evs.append(("read:" + d, lambda d=d: issue_read(d)))
+                elif pending == 0 and not s["attached"]:
+                    evs.append(("attach:" + d, lambda d=d: attach(d)))
+                continue
             if s["mode"] == "read" or (s["attached"] and
                                        s["cdef_state"] == "ok" and
                                        s.get("consumer2") is None):
@@ -550,6 +575,11 @@ def run_one(seed, tape, opts):
     def delivered(d):
         s = st[d]
         out = []
+        if s["mode"] == "read_then_consumer":
+            out.extend(s["got"])
+            if s["consumer"] is not None:
+                out.extend(s["consumer"].records)
+            return out
         if s["consumer"] is not None:
             cr = s["consumer"].records
             if s.get("exp") == 0 and cr[:1] == [b""]:
